@@ -1,3 +1,4 @@
+import Props.FnTie
 import JwtProofs.Decode
 /-!
 # C01 — accepted tokens are authentic: signed by the reported issuer over the exact text
